@@ -7,7 +7,7 @@ CHECKS["C08"] = {
     "level": "exploration",
     "technique": "exhaustive table enumeration of abstract scalars x operations against brute-force concrete members",
     "design_ref": "DESIGN.md §2 C08",
-    "jobs": [{"bin": "c08_scalars", "deadline": {"quick": 200, "thorough": 1200}}],
+    "jobs": [{"bin": "c08_scalars", "deadline": {"quick": 200, "thorough": 900}}],
     "rule": ("every ordered pair of abstract scalars of a finite alphabet (z_interval: all intervals with "
              "bounds in [-R,R] plus half-lines, top, bottom; q_interval on a quarter grid; congruences aZ+b "
              "with a<=R+2; interval-congruence pairs; all 8 signs; constants; 3-valued booleans; small ranges; "
@@ -53,7 +53,7 @@ CHECKS["C13"] = {
     "level": "exploration",
     "technique": "exhaustive enumeration of fixed-width operands and wrapped intervals against modular arithmetic in unsigned __int128",
     "design_ref": "DESIGN.md §2 C13",
-    "jobs": [{"bin": "c13_wrapped", "deadline": {"quick": 200, "thorough": 1200}},
+    "jobs": [{"bin": "c13_wrapped", "deadline": {"quick": 200, "thorough": 900}},
              {"bin": "c13_domain", "deadline": {"quick": 200, "thorough": 900}}],
     "rule": ("wrapint: widths 1..5 (7 thorough) ALL operand pairs, widths 1..64 all pairs of a boundary alphabet "
              "{0,1,2,3,smax,smin,smin+1,umax-1,umax,0x55..,0xAA..,w-1,w} x 18 binary ops, comparisons, unary ops, "
@@ -77,7 +77,7 @@ CHECKS["C07"] = {
     "level": "exploration",
     "technique": "exhaustive enumeration of all small digraphs x entry x successor orders on the real wto<cfg_ref>/wto<call_graph_ref>, checked against from-scratch well-formedness predicates",
     "design_ref": "DESIGN.md §2 C07",
-    "jobs": [{"bin": "c07_wto", "deadline": {"quick": 200, "thorough": 1200}}],
+    "jobs": [{"bin": "c07_wto", "deadline": {"quick": 200, "thorough": 900}}],
     "rule": ("every labelled digraph with n<=3 nodes (all 2^(n*n) edge sets incl. self loops, unreachable nodes) x every product "
              "of successor-list permutations; n=4: all 65536 graphs x {canonical, reversed, rotated} successor orders, also as call "
              "graphs of stub functions; thorough adds n=5: all 2^25 graphs x {canonical, reversed}. Each graph is built as a real "
@@ -93,7 +93,7 @@ CHECKS["C19"] = {
     "level": "model_checking",
     "technique": "stateless exhaustive exploration of all operation sequences up to a depth over two registers of the real containers, compared step by step with std::map / std::set reference models",
     "design_ref": "DESIGN.md §2 C19",
-    "jobs": [{"bin": "c19_containers", "deadline": {"quick": 240, "thorough": 1200}}],
+    "jobs": [{"bin": "c19_containers", "deadline": {"quick": 240, "thorough": 900}}],
     "rule": ("separate_domain<Key,interval>: two registers, every sequence of <=3 (4 thorough, first key set) operations from "
              "{set(k,v), join(k,v), forget k, join, meet, widening, widening_thresholds, narrowing, copy, set_to_bottom, top, 3 projections, "
              "rename onto a fresh key} applied to either register, over 2 (3 thorough) key alphabets of 6 adversarial indices "
@@ -119,7 +119,7 @@ CHECKS["C03"] = {
     "level": "model_checking",
     "technique": "stateless exhaustive exploration of all abstract-domain operation histories up to a depth on the real domains, each state checked against witness sets of concrete valuations",
     "design_ref": "DESIGN.md §2 C03",
-    "jobs": [{"bin": "e3_hist", "args": ["--mode", "dfs"], "deadline": {"quick": 420, "thorough": 1200}}],
+    "jobs": [{"bin": "e3_hist", "args": ["--mode", "dfs"], "deadline": {"quick": 420, "thorough": 900}}],
     "rule": ("for each of 35 domain instantiations (intervals, constants, signs, sign-constants, interval-congruences, sparse/split DBM, "
              "split octagons, disjunctive intervals, term domains x3, uf, fixed-tvpi, flat boolean x2, reduced product, powerset, value "
              "partitioning, lookahead widening, packing, array smashing x3, array adaptive x4, region x7) and each parameter configuration "
@@ -141,8 +141,8 @@ CHECKS["C04"] = {
     "level": "model_checking",
     "technique": "exhaustive history exploration plus all ordered pairs of a pool of reachable values, inclusion and lattice operations checked against witness sets",
     "design_ref": "DESIGN.md §2 C04",
-    "jobs": [{"bin": "e3_hist", "args": ["--mode", "dfs"], "deadline": {"quick": 300, "thorough": 1200}},
-             {"bin": "e3_hist", "args": ["--mode", "pairs"], "deadline": {"quick": 300, "thorough": 1200}}],
+    "jobs": [{"bin": "e3_hist", "args": ["--mode", "dfs"], "deadline": {"quick": 300, "thorough": 900}},
+             {"bin": "e3_hist", "args": ["--mode", "pairs"], "deadline": {"quick": 300, "thorough": 900}}],
     "rule": ("(a) the C03 history space: at every node both ordered register pairs are tested: reflexivity, bottom<=a, a<=top, "
              "`a<=b` yes => every witness of a passes M1-M4 against b, make_top/make_bottom/set_to_* agree with is_top/is_bottom; "
              "(b) per domain/config a pool of distinct values reachable by core histories of depth <=2 (incl. values over different variable "
@@ -157,8 +157,8 @@ CHECKS["C16"] = {
     "level": "model_checking",
     "technique": "exhaustive history exploration where every node works on copies: parents re-observed after their subtree, queries/normalize/minimize compared by exported meaning, and direct/abstract_domain/abstract_domain_ref flavours run in lock step",
     "design_ref": "DESIGN.md §2 C16",
-    "jobs": [{"bin": "e3_hist", "args": ["--mode", "dfs"], "deadline": {"quick": 300, "thorough": 1200}},
-             {"bin": "e3_hist", "args": ["--mode", "lockstep"], "deadline": {"quick": 300, "thorough": 1200}},
+    "jobs": [{"bin": "e3_hist", "args": ["--mode", "dfs"], "deadline": {"quick": 300, "thorough": 900}},
+             {"bin": "e3_hist", "args": ["--mode", "lockstep"], "deadline": {"quick": 300, "thorough": 900}},
              {"bin": "e3_hist", "args": ["--mode", "linear"], "deadline": {"quick": 200, "thorough": 900}}],
     "rule": ("the C03 history space; every child operates on a copy (copy construction) of its parent; after the whole subtree of a node "
              "returned, the parent's printed form and the solution set of its exported constraints/intervals over the value box must be unchanged "
@@ -178,8 +178,8 @@ CHECKS["C12"] = {
     "level": "model_checking",
     "technique": "exhaustive enumeration of all ordered tuples of in-language constraints (and joins/meets/forgets/copies of such conjunctions) on the real domains, against brute-force integer satisfiability/implication in a box; lock-step lifted-vs-base histories",
     "design_ref": "DESIGN.md §2 C12",
-    "jobs": [{"bin": "c12_exact", "args": ["--mode", "exact"], "deadline": {"quick": 420, "thorough": 1200}},
-             {"bin": "c12_exact", "args": ["--mode", "lifting"], "deadline": {"quick": 240, "thorough": 1200}}],
+    "jobs": [{"bin": "c12_exact", "args": ["--mode", "exact"], "deadline": {"quick": 420, "thorough": 900}},
+             {"bin": "c12_exact", "args": ["--mode", "lifting"], "deadline": {"quick": 240, "thorough": 900}}],
     "rule": ("languages over x,y,z with |k|<=2: intervals 30 constraints, zones 60, octagons 90. For intervals, sparse_dbm, split_dbm, split_oct "
              "and every closure-parameter setting (5 quick / 16 thorough): every single constraint, every ORDERED pair (added one at a time, as one "
              "system, and with the last one added to a copy) and every ordered triple (quick: default setting, third constant |k|<=1); forget of each "
@@ -197,8 +197,8 @@ CHECKS["C06"] = {
     "level": "model_checking",
     "technique": "exhaustive enumeration of all small CFGs x exact block relations over a 16-state concrete space on the real interleaved fixpoint iterator, compared block by block with a naive Kleene least fixpoint",
     "design_ref": "DESIGN.md §2 C06",
-    "jobs": [{"bin": "c06_fixpoint", "deadline": {"quick": 400, "thorough": 1200}},
-             {"bin": "e2_prog", "args": ["--family", "num"], "deadline": {"quick": 400, "thorough": 1200}}],
+    "jobs": [{"bin": "c06_fixpoint", "deadline": {"quick": 400, "thorough": 900}},
+             {"bin": "e2_prog", "args": ["--family", "num"], "deadline": {"quick": 400, "thorough": 900}}],
     "rule": ("value type = subsets of {0..3}^2 (widening = join, narrowing = meet). Every real crab CFG with n<=3 blocks (all 2^(n*n) edge "
              "sets: entry with predecessors / as loop head, self loops, unreachable blocks, irreducible shapes; n=4 in thorough with a 4-relation "
              "menu) x every assignment of exact block relations from {id, x+1 mod 4, x<=1, x>=2, havoc x, x:=0, swap} x 5 initial sets x every "
@@ -227,9 +227,9 @@ CHECKS["C01"] = {
     "level": "model_checking",
     "technique": "exhaustive enumeration of small CrabIR programs built as real cfgs; explicit-state exploration of every concrete execution; every forward invariant checked to contain every reached state",
     "design_ref": "DESIGN.md §2 C01",
-    "jobs": [{"bin": "e2_prog", "args": ["--family", "num"], "deadline": {"quick": 420, "thorough": 1200}},
-             {"bin": "e2_prog", "args": ["--family", "bool", "--maxn", "2"], "deadline": {"quick": 200, "thorough": 1200}},
-             {"bin": "e2_prog", "args": ["--family", "num", "--alpha", "2", "--maxn", "2", "--second", "1"], "deadline": {"quick": 300, "thorough": 1200}}],
+    "jobs": [{"bin": "e2_prog", "args": ["--family", "num"], "deadline": {"quick": 420, "thorough": 900}},
+             {"bin": "e2_prog", "args": ["--family", "bool", "--maxn", "2"], "deadline": {"quick": 200, "thorough": 900}},
+             {"bin": "e2_prog", "args": ["--family", "num", "--alpha", "2", "--maxn", "2", "--second", "1"], "deadline": {"quick": 300, "thorough": 900}}],
     "rule": ("all CFG skeletons with n<=3 blocks (every edge set: entry with predecessors, self loops, nested and irreducible cycles, unreachable "
              "blocks) x every assignment of <=1 statement per block from an alphabet of 9 (quick) / 14 (thorough) statements over x,y (constants, "
              "increments, copies, sums, havoc, assumes incl. strict and disequalities, multiplication), plus two-statement blocks for n=2; boolean "
@@ -247,10 +247,10 @@ CHECKS["C02"] = {
     "level": "model_checking",
     "technique": "same program enumeration with assertions; verdicts of the intra forward checker and of the forward+backward analyzer (all fwd_bwd parameter settings) confronted with explicit-state exploration",
     "design_ref": "DESIGN.md §2 C02",
-    "jobs": [{"bin": "e2_prog", "args": ["--family", "num"], "deadline": {"quick": 420, "thorough": 1200}},
-             {"bin": "e2_prog", "args": ["--family", "bool", "--maxn", "2"], "deadline": {"quick": 200, "thorough": 1200}},
-             {"bin": "e2_prog", "args": ["--family", "num", "--alpha", "2", "--maxn", "2", "--second", "1"], "deadline": {"quick": 300, "thorough": 1200}},
-             {"bin": "c09_inter", "deadline": {"quick": 300, "thorough": 1200}}],
+    "jobs": [{"bin": "e2_prog", "args": ["--family", "num"], "deadline": {"quick": 420, "thorough": 900}},
+             {"bin": "e2_prog", "args": ["--family", "bool", "--maxn", "2"], "deadline": {"quick": 200, "thorough": 900}},
+             {"bin": "e2_prog", "args": ["--family", "num", "--alpha", "2", "--maxn", "2", "--second", "1"], "deadline": {"quick": 300, "thorough": 900}},
+             {"bin": "c09_inter", "deadline": {"quick": 300, "thorough": 900}}],
     "rule": ("the C01 program space restricted to programs containing at least one assertion (numeric assert(x<=1), assert(x>=0), assert(x<=y); "
              "bool_assert in the boolean family), each occurrence with its own debug id. For every domain / fixpoint parameter tuple: "
              "intra_fwd_analyzer + intra_checker(assert_property_checker), and intra_forward_backward_analyzer with enable_backward x "
@@ -268,10 +268,10 @@ CHECKS["C05"] = {
     "level": "model_checking",
     "technique": "every analysis of the enumerated loop-bearing programs runs under a deterministic fixpoint-iteration budget (hook CRAB_VERIF_TICK); widening chains explored exhaustively over transformer alphabets",
     "design_ref": "DESIGN.md §2 C05",
-    "jobs": [{"bin": "e2_prog", "args": ["--family", "num"], "deadline": {"quick": 420, "thorough": 1200}},
-             {"bin": "e2_prog", "args": ["--family", "num", "--alpha", "2", "--maxn", "2", "--second", "1"], "deadline": {"quick": 300, "thorough": 1200}},
-             {"bin": "c09_inter", "deadline": {"quick": 300, "thorough": 1200}},
-             {"bin": "e3_hist", "args": ["--mode", "pairs"], "deadline": {"quick": 300, "thorough": 1200}}],
+    "jobs": [{"bin": "e2_prog", "args": ["--family", "num"], "deadline": {"quick": 420, "thorough": 900}},
+             {"bin": "e2_prog", "args": ["--family", "num", "--alpha", "2", "--maxn", "2", "--second", "1"], "deadline": {"quick": 300, "thorough": 900}},
+             {"bin": "c09_inter", "deadline": {"quick": 300, "thorough": 900}},
+             {"bin": "e3_hist", "args": ["--mode", "pairs"], "deadline": {"quick": 300, "thorough": 900}}],
     "rule": ("the C01 program space restricted to programs with a cycle, every domain / fixpoint parameter tuple: the forward analysis must finish "
              "within 20000 fixpoint iterations (ascending + descending, counted by the tick hook placed in the wto cycle loops, the kill/gen "
              "iterator, the forward-backward refinement loop and the inter-procedural recursion). max.max_fixpoint_ticks reports the maximum observed. "
@@ -298,7 +298,7 @@ CHECKS["C09"] = {
     "level": "model_checking",
     "technique": "exhaustive enumeration of small call graphs (shared names, recursion, multi-output calls); explicit tabulation of all concrete calling contexts to a fixpoint; every top-down invariant, stored summary and interleaved-checker verdict confronted with it for every parameter tuple",
     "design_ref": "DESIGN.md §2 C09",
-    "jobs": [{"bin": "c09_inter", "deadline": {"quick": 400, "thorough": 1200}}],
+    "jobs": [{"bin": "c09_inter", "deadline": {"quick": 400, "thorough": 900}}],
     "rule": (_INTER_SPACE + " top_down_inter_analyzer on 2 (6) domains x 5 (10) parameter tuples (max_call_contexts in {unbounded,0,1,2}, exact / "
              "approximate summary reuse, precise / imprecise recursion, only_main_as_entry, widening delay / descending iterations / thresholds) x "
              "initial value top (and x<=0). Clauses: every state of a context reachable from an entry function is in get_pre/get_post of its block "
@@ -315,7 +315,7 @@ CHECKS["C10"] = {
     "level": "model_checking",
     "technique": "same call-graph enumeration and tabulated oracle; bottom_up_inter_analyzer with every (summary domain, forward domain) pair: bottom-up summaries vs all terminating concrete calls, top-down invariants vs all reachable states",
     "design_ref": "DESIGN.md §2 C10",
-    "jobs": [{"bin": "c09_inter", "deadline": {"quick": 400, "thorough": 1200}}],
+    "jobs": [{"bin": "c09_inter", "deadline": {"quick": 400, "thorough": 900}}],
     "rule": (_INTER_SPACE + " Restricted to call graphs whose only entry is main (documented limitation of the analyzer). bottom_up_inter_analyzer with "
              "every ordered pair of summary / forward domain from 2 (4) domains wrapped in abstract_domain (so the generic convert_domains path is "
              "exercised) x 1 (3) fixpoint parameter tuples. Clauses: get_summary(f) = (top, S): every terminating concrete call (inputs, outputs) "
@@ -329,8 +329,8 @@ CHECKS["C11"] = {
     "level": "model_checking",
     "technique": "exhaustive enumeration of small CrabIR programs with assertions; explicit-state co-reachability (backward fixpoint over the explored concrete graph) confronted with the real necessary_preconditions_fixpoint_iterator, in error mode and good-final-state mode, with and without forward invariants",
     "design_ref": "DESIGN.md §2 C11",
-    "jobs": [{"bin": "e2_prog", "args": ["--family", "num", "--alpha", "0"], "deadline": {"quick": 300, "thorough": 1200}},
-             {"bin": "e2_prog", "args": ["--family", "num", "--alpha", "2", "--maxn", "2", "--second", "1"], "deadline": {"quick": 300, "thorough": 1200}}],
+    "jobs": [{"bin": "e2_prog", "args": ["--family", "num", "--alpha", "0"], "deadline": {"quick": 300, "thorough": 900}},
+             {"bin": "e2_prog", "args": ["--family", "num", "--alpha", "2", "--maxn", "2", "--second", "1"], "deadline": {"quick": 300, "thorough": 900}}],
     "rule": ("job 1: the C01 program space (n<=3 blocks, 9-statement core alphabet + 3 assertions, all edge sets with an exit block); job 2: n<=2 "
              "with the 25-statement alphabet (adds *2, -1, disequalities, equalities, y:=1, y:=0, /2, %2, &1, >>1, x*y, select, negation, "
              "unreachable) and every two-statement block. For each program the concrete graph over the value box is built from every (block, "
@@ -347,7 +347,7 @@ CHECKS["C14"] = {
     "level": "model_checking",
     "technique": "bounded-exhaustive exploration of array-operation histories on the real array domains, executed in lock-step on sets of concrete witnesses (scalars + cell contents); after every step every cell of every witness is read back through array_load (constant index and symbolic index) and compared",
     "design_ref": "DESIGN.md §2 C14",
-    "jobs": [{"bin": "c14_arrays", "deadline": {"quick": 300, "thorough": 1200}}],
+    "jobs": [{"bin": "c14_arrays", "deadline": {"quick": 300, "thorough": 900}}],
     "rule": ("two int arrays A, A2 with element size 4 and 6 cells, a single-cell array S, scalars x, y, i; alphabet of 25 core operations "
              "(array_init on full / partial ranges, stores at constant indices 0/4/8, at the symbolic index i and i+4, range stores, array_assign, "
              "loads at constant and symbolic indices, i:=0, i:=i+4, i:=nondet{0,4,8}, x:=x+1, the strong-update store on S, save / join / widening "
@@ -369,7 +369,7 @@ CHECKS["C15"] = {
     "level": "model_checking",
     "technique": "bounded-exhaustive exploration of region/reference operation histories on the real region domain, executed in lock-step on sets of concrete heaps (objects with allocation sites, references, region contents); after every step loads through every reference and every reference query are compared with every heap",
     "design_ref": "DESIGN.md §2 C15",
-    "jobs": [{"bin": "c15_regions", "deadline": {"quick": 300, "thorough": 1200}}],
+    "jobs": [{"bin": "c15_regions", "deadline": {"quick": 300, "thorough": 900}}],
     "rule": ("int regions R1, R2 (copy of R1), reference region RR, references p, q (into R1/R2) and r (into RR), scalars x, y, boolean b1; alphabet "
              "of 16 core operations (ref_make at two allocation sites into the same region, stores of constants and variables through p and q, "
              "loads, ref_gep with offset 0 (alias) and 4 (next cell of the same object), assume p==q / p!=q / p!=null, x:=x+1, save / join / "
@@ -394,7 +394,7 @@ CHECKS["C17"] = {
     "level": "model_checking",
     "technique": "exhaustive enumeration of small CFGs; explicit enumeration of all executions under a per-block visit bound; trace-set equality between the original and the transformed real cfg, plus well-formedness",
     "design_ref": "DESIGN.md §2 C17",
-    "jobs": [{"bin": "c17_transforms", "deadline": {"quick": 400, "thorough": 1200}}],
+    "jobs": [{"bin": "c17_transforms", "deadline": {"quick": 400, "thorough": 900}}],
     "rule": ("all skeletons with n<=3 blocks whose last block is the exit (no successors): entry with predecessors, self loops, unreachable blocks, "
              "blocks that cannot reach the exit; <=1 statement per block from a division-free alphabet of 11 (14 thorough) statements over x,y,z "
              "with a function declaration (output x), plus all ordered two-statement blocks for n<=2; transforms on clones: cfg::simplify(), "
@@ -410,7 +410,7 @@ CHECKS["C18"] = {
     "level": "model_checking",
     "technique": "exhaustive enumeration of small CFGs; non-interference test of every variable reported dead (all states x all perturbations x all continuations) and path-wise data-flow test of the assertion crawler facts",
     "design_ref": "DESIGN.md §2 C18",
-    "jobs": [{"bin": "c17_transforms", "deadline": {"quick": 400, "thorough": 1200}}],
+    "jobs": [{"bin": "c17_transforms", "deadline": {"quick": 400, "thorough": 900}}],
     "rule": ("the C17 program space. Liveness (live_and_dead_analysis): for every block b processed by the analysis and every variable v not "
              "live at the end of b, for every state in the box and every other value of v, the sets of continuation traces (conditions, assertion "
              "outcomes, terminal event: exit with outputs / stuck / assertion failure / unreachable / bound) from the end of b must be equal. "
